@@ -36,7 +36,7 @@ type c04Op struct {
 	Lic    int    `json:"lic,omitempty"`
 	Param  int    `json:"param,omitempty"`
 	Stream bool   `json:"stream,omitempty"`
-	DCase  int    `json:"dcase,omitempty"` // create: spelling of the digest in the request (0 as computed, 1 upper-case hex, 2 mixed)
+	DCase  int    `json:"dcase,omitempty"` // create: spelling of the digest in the request (0 as computed, 1 upper-case hex, 2 mixed, 3 "sha256-<hex>")
 	At     int    `json:"at,omitempty"`    // pulldel: ordinal of the pull's registry request at which the delete is issued
 }
 
@@ -143,7 +143,7 @@ func c04Gen(t *rapid.T) c04Case {
 			o.Param = rapid.IntRange(0, 2).Draw(t, "param")
 			o.Stream = rapid.Bool().Draw(t, "stream")
 			if o.Kind == "create" {
-				o.DCase = rapid.SampledFrom([]int{0, 0, 0, 0, 0, 0, 1, 2}).Draw(t, "dcase")
+				o.DCase = rapid.SampledFrom([]int{0, 0, 0, 0, 0, 3, 3, 1, 2}).Draw(t, "dcase")
 			}
 		case "blob":
 			o.GGUF = rapid.IntRange(0, 2).Draw(t, "gguf")
@@ -287,7 +287,9 @@ func (e *c04Env) list() (map[string]*c04Listed, error) {
 			if int64(len(b)) != layer.Size {
 				return nil, fmt.Errorf("listed model %q: layer %s has %d bytes, manifest says %d", m.Name, layer.Digest[:19], len(b), layer.Size)
 			}
-			if d := frDigest(b); d != layer.Digest {
+			// a digest may be spelled "sha256:<hex>" or "sha256-<hex>" (GetBlobsPath accepts both, and create records the
+			// client's spelling): what must match is the hash
+			if d := frDigest(b); d != strings.Replace(layer.Digest, "sha256-", "sha256:", 1) {
 				return nil, fmt.Errorf("listed model %q: layer %s is corrupt (hashes to %s)", m.Name, layer.Digest[:19], d[:19])
 			}
 		}
@@ -436,6 +438,9 @@ func c04RunInner(c c04Case) (classes []string, nontrivial bool, err error) {
 					}
 					d = "sha256:" + string(h)
 					e.cls["create_with_uppercase_digest"] = true
+				case 3: // the other separator the server accepts in a digest ("sha256-<hex>", the form blob file names have)
+					d = "sha256-" + strings.TrimPrefix(d, "sha256:")
+					e.cls["create_with_dash_digest"] = true
 				}
 				req["files"] = map[string]string{"model.gguf": d}
 			} else {
@@ -645,9 +650,9 @@ func c04RunInner(c c04Case) (classes []string, nontrivial bool, err error) {
 					Layers []struct{ Digest string } `json:"layers"`
 				}
 				if b, rerr := os.ReadFile(p); rerr == nil && json.Unmarshal(b, &mf) == nil {
-					ref["sha256-"+strings.TrimPrefix(mf.Config.Digest, "sha256:")] = true
+					ref["sha256-"+strings.TrimPrefix(strings.TrimPrefix(mf.Config.Digest, "sha256:"), "sha256-")] = true
 					for _, l := range mf.Layers {
-						ref["sha256-"+strings.TrimPrefix(l.Digest, "sha256:")] = true
+						ref["sha256-"+strings.TrimPrefix(strings.TrimPrefix(l.Digest, "sha256:"), "sha256-")] = true
 					}
 				}
 				return nil
